@@ -52,15 +52,17 @@ ASSUMPTIONS = [
     "executes against the globals of its defining file)",
     "a marker and the statements up to the next suspension run without yielding to the loop, so markers are totally "
     "ordered and 'counter += 1' followed by its marker is atomic",
-    "k-th execution of a file's top-level code is legitimate iff k <= 1 + number of pyscript.reload calls issued "
-    "before it (a reload may legitimately unload and re-load a file once); runs that do not start while a reload "
-    "is in flight are don't-care; instance identity while a reload has been issued is judged only at the final "
-    "quiescent probe",
+    "a file's top-level code may run again only if a pyscript.reload call was in flight at some moment between the "
+    "end of its previous load and the start of the import/load that runs it again; two loads of one file that "
+    "overlap in time are never legitimate; runs that do not start while a reload is in flight are don't-care; "
+    "instance identity once a reload has been issued is judged only at the final quiescent probe",
+    "pyscript.reload calls are issued one at a time, and never with global_ctx=<a module> (both hit reload "
+    "defects outside C11 that make the entry points disappear)",
     "asyncio FIFO ready queue is kept; interleavings explored are start instants, sleeps, executor latency, cost",
 ]
 TIERS = {
-    "quick": {"runs": 3200, "chunk": 100},
-    "thorough": {"runs": 40000, "chunk": 250},
+    "quick": {"runs": 8000, "chunk": 250},
+    "thorough": {"runs": 160000, "chunk": 1000, "chunk_timeout": 1800},
 }
 REACH_PROBES = [
     "two_runs_overlap_in_different_contexts", "callee_raised_through_context_switch",
@@ -723,9 +725,25 @@ def run(scn: dict) -> dict:
                 await w.call_service("pyscript", f"look_{fid}", {}, blocking=True)
         await w.settle(0.5)
 
-    w.run(driver)
+    try:
+        w.run(driver)
+    finally:
+        _drop_finalizers()
     violations, nontrivial, extra = judge(w, scn, st)
     return base_result(w, violations, nontrivial, extra)
+
+
+def _drop_finalizers() -> None:
+    """Harness hygiene, not part of the check: FunctionDecoratorManager registers a weakref.finalize whose
+    callback keeps the manager - and through it the whole global context incl. the parsed files - alive for the
+    life of the process.  The generated files are large, so a worker slowed down run after run (gc.collect over
+    an ever growing heap).  Detach those finalizers once the world is torn down."""
+    import weakref
+
+    for fin in list(weakref.finalize._registry):  # pylint: disable=protected-access
+        info = weakref.finalize._registry.get(fin)  # pylint: disable=protected-access
+        if info is not None and "FunctionDecoratorManager" in getattr(info.func, "__qualname__", ""):
+            fin.detach()
 
 
 def judge(w: World, scn: dict, st: dict):
@@ -816,21 +834,31 @@ def judge(w: World, scn: dict, st: dict):
             raise HarnessError(f"C11: unexpected mark {m['args']}")
         if kind == "loaded":
             lst = loads.setdefault(fid, [])
+            if tok_owner(kw.get("tok")) != fid:
+                raise HarnessError("C11: token registry out of step")
             # did the import statement that caused this load begin before the previous load of the file was over?
             begun_idx = imp_by_task.get(m["task"], {}).get(fid, idx)
-            racing = bool(lst) and load_done.get(lst[-1]["kw"].get("tok"), len(w.marks)) > begun_idx
+            begun_iter = w.marks[begun_idx]["iter"]
+            prev_tok = lst[-1]["kw"].get("tok") if lst else None
+            prev_done = load_done.get(prev_tok)
+            racing = bool(lst) and (prev_done is None or prev_done > begun_idx)
             racing_load[kw.get("tok")] = racing
             lst.append(m)
             latest_tok[fid] = kw.get("tok")
             n_rel = reloads_before(m["iter"])
-            if tok_owner(kw.get("tok")) != fid:
-                raise HarnessError("C11: token registry out of step")
-            if len(lst) > 1 + n_rel:
-                viol("C11.module_loaded_twice", {"kind": KIND[fid], "reload_issued": n_rel > 0, "racing": racing},
-                     f"top-level code of {PATH[fid]} ran {len(lst)} times (tokens "
-                     f"{[x['kw'].get('tok') for x in lst]}) although only {n_rel} reload(s) had been issued; the "
-                     f"import that caused the last load began {'before' if racing else 'after'} the previous load "
-                     f"had finished", m["t"], once=fid)
+            toks = [x["kw"].get("tok") for x in lst]
+            if racing:
+                viol("C11.module_loaded_twice", {"kind": KIND[fid], "reload_issued": n_rel > 0, "racing": True},
+                     f"top-level code of {PATH[fid]} is running a second time (tokens {toks}): the import that caused "
+                     f"this load began before the previous load of the same file had finished, so two instances "
+                     f"come to life ({n_rel} reload(s) issued so far)", m["t"], once=(fid, True))
+            elif len(lst) > 1:
+                done_iter = w.marks[prev_done]["iter"]
+                if not any(r["i0"] <= begun_iter and (r["i1"] is None or r["i1"] >= done_iter) for r in st["reloads"]):
+                    viol("C11.module_loaded_twice", {"kind": KIND[fid], "reload_issued": n_rel > 0, "racing": False},
+                         f"top-level code of {PATH[fid]} ran again (tokens {toks}) although no pyscript.reload was in "
+                         f"flight between the end of the previous load and the import that caused this one", m["t"],
+                         once=(fid, False))
             continue
         if kind == "loaded_end":
             load_done[kw.get("tok")] = idx
